@@ -661,6 +661,13 @@ async fn exec(cx: &mut ClientCx, op: &Op) -> Res {
             Some(f) => Res::Joined(f.await.map(|p| p.join_val())),
             None => Res::Skipped,
         },
+        Op::JoinDiscard => match cx.joins.pop_front() {
+            Some(f) => {
+                drop(f);
+                Res::Ok
+            }
+            None => Res::Skipped,
+        },
         Op::Detach { h, to } => {
             if !matches!(cx.ent(*h).h, H::Owning(_)) {
                 return Res::Skipped;
